@@ -2,6 +2,7 @@ SPECIFICATION Spec
 CONSTANTS
   Alphabet = {10, 32, 34, 49, 59, 64, 97, 98, 100, 101, 104, 109, 110, 115}
   N = 4
+  Prefixes <- PrefixesNone
 INVARIANTS Lossless OneEofLast NonEmptyNonBlankStart Emit
 PROPERTIES Progress
 CHECK_DEADLOCK FALSE
